@@ -167,11 +167,45 @@ def start(init, cc):
     return FileState(init, cc)
 
 
+#: read-only looking accessors of a log pass and of its frame set (what listings, summaries and the plot code call between loads)
+LOGPASS_ACCESSORS = ('longStr', 'x_axis_str', 'frameSetLongStr', 'jsonObject', 'gen_mnemonic_units', 'genFrameSetHeadings',
+                     'genFrameSetScNameUnit', 'genFrameSetChIndexScNameUnit', 'outpMnemS')
+LOGPASS_PROPERTIES = ('xAxisFirstVal', 'xAxisLastVal', 'xAxisSpacing', 'xAxisUnits', 'totalFrames', 'xAxisFirstEngVal', 'xAxisLastEngVal',
+                      'xAxisFirstValOptical', 'xAxisLastValOptical', 'xAxisSpacingOptical', 'xAxisUnitsOptical', 'nullValue', 'numBytes')
+FRAMESET_ACCESSORS = ('longStr', 'genAll', 'genChScValues')
+FRAMESET_PROPERTIES = ('numFrames', 'numChannels', 'numValues', 'nbytes', 'isIndirectX', 'xAxisDecl', 'frames', 'intermediateFrameSpacing')
+
+
+def poke(lp, cc):
+    """Calls the accessors; results and exceptions are not judged (no statement covers them) - what is judged is that the
+    loads that follow still give the recorded values."""
+    for obj, meths, props in ((lp, LOGPASS_ACCESSORS, LOGPASS_PROPERTIES), (lp.frameSet, FRAMESET_ACCESSORS, FRAMESET_PROPERTIES)):
+        if obj is None:
+            continue
+        for name in props:
+            try:
+                getattr(obj, name)
+            except Exception:  # noqa
+                pass
+        for name in meths:
+            try:
+                r = getattr(obj, name)()
+                if hasattr(r, '__next__'):
+                    for _ in zip(range(64), r):
+                        pass
+            except Exception:  # noqa
+                pass
+    cc.cls('accessors-read-between-loads')
+
+
 def step(s, op, cc):
     if not s.passes or len(s.lps) != len(s.passes):
         return
     k = op['pass'] % len(s.passes)
     pm, lp = s.passes[k], s.lps[k]
+    if op['op'] == 'poke':
+        poke(lp, cc)
+        return
     n = pm.n
     if lp.totalFrames != n or n == 0:
         return
@@ -309,6 +343,10 @@ class LoadMachine(HistoryMachine):
             self.op({'op': 'load', 'pass': p, 'start': start, 'length': length, 'step': 0, 'none_step': False, 'channels': []})
         else:
             self.op({'op': 'load', 'pass': p, 'all': True, 'channels': []})
+
+    @rule(p=st.integers(0, 2))
+    def read_accessors(self, p):
+        self.op({'op': 'poke', 'pass': p})
 
     @rule(p=st.integers(0, 2), channels=st.lists(st.integers(0, 5), min_size=1, max_size=3))
     def load_channels(self, p, channels):
